@@ -10,6 +10,11 @@ NOTE_COMMON = ("Trusted: Lean 4.33 kernel with axioms propext/Classical.choice/Q
                "rounding modes; third-party libraries, Rust std, cffi, md5, OS are trusted. ")
 
 CLAIMED = {
+    "C03": dict(
+        text="Lean theorems: (A) downsampling keeps exactly the hashes at or below the new threshold with their counts, equals sketching the same additions directly at the coarser value, composes, and upsampling is refused (Rust and Python layers); (B) for EVERY scaled value 1..2^31, analytically (no enumeration): Python .scaled, Rust scaled(), copy/pickle, Python downsample and the BTree conversion all reproduce S / the same threshold, proved over an exact integer model of binary64 division and rounding whose rounding modes are re-read from the source by the translator on every run. Tied to the code by the scaled stream (every conversion pipeline incl. count_common(downsample=True) both ways) and, in the thorough tier, a contiguous sweep 1..2^21 of the real code against the model.",
+        note=NOTE_COMMON + "IEEE-754 correct rounding of hardware division and of CPython int/int true division is assumed (that is what Float64.lean models). Above 2^31.5 the threshold no longer determines scaled: known finding D22.",
+        technique="Lean 4 proof: float error analysis over Q for all S<=2^31 + refinement; translator for rounding modes; model/impl correspondence incl. exhaustive sweep 1..2^21 (thorough)",
+        ref="DESIGN.md section 5 C03"),
     "C01": dict(
         text="Lean theorems: the model of KmerMinHash + FFI glue + Python dispatch keeps a strictly sorted, abundance-aligned vector (invariant over all op histories) and, for scaled sketches, refines a finite-map spec (hash -> count restricted to <= max_hash) for every op incl. remove/clear/merge/set-abundances; num sketches equal the first n entries of the unbounded sketch for removal-free histories. Tied to the code by the mh correspondence stream and a spec oracle on every history.",
         note=NOTE_COMMON + "u64 abundance sums assumed not to wrap. Num sketches with a removal after an eviction cannot satisfy the statement (known finding D21, information-theoretic).",
